@@ -834,6 +834,11 @@ def run(ctx):
             reqs.append(f"twinsurr_kw {cbits} {dim} {delay} {enc_num(thr)} {md_eff} {gseed} "
                         f"{enc_vec(draws)} {enc_mat(data)}")
             impl.append("raise:IndexError" if got == "raise:ValueError" else got)
+            # round 5: the whole method on the source's expressions throughout (walk kernel included)
+            reqs.append(f"twinsurr_src {cbits} {dim} {delay} {enc_num(thr)} {md_eff} {gseed} "
+                        f"{enc_vec(draws)} {enc_mat(data)}")
+            impl.append("raise:IndexError" if got == "raise:ValueError" else got)
+            ctx.count("gen:Surrogates.twin_surrogates-source-level")
             if rng.random() < 0.2:
                 reqs.append(f"twinsurr_k {dim} {delay} {enc_num(thr)} {md_eff} {gseed} {enc_vec(draws)} "
                             f"{enc_mat(data)}")
@@ -883,6 +888,10 @@ def run(ctx):
                     impl.append(("walk", o2, data, dp2.used))
                 except Exception as e:  # noqa
                     impl.append("raise:" + type(e).__name__)
+                # round 5: the same call against the loop-level walk on the source's expressions
+                reqs.append(f"walk_sk {nT} {enc_vec(draws)} {enc_mats(tw, enc_imat)}")
+                impl.append(impl[-1])
+                ctx.count("gen:_twin_surrogates_s-loop-level")
             else:
                 ctx.count("twins:outside-domain-raises")
             ctx.case(("twin_s", data.tobytes().hex(), dim, delay, str(thr), md, enc_vec(draws[:8])),
@@ -955,12 +964,19 @@ def run(ctx):
             if np.isfinite(embv).all() and np.isfinite(np.asarray(out, dtype=float)).all():
                 reqs.append(f"rp_twinsurr {md_eff} {ns_eff} {enc_vec(draws)} {enc_imat(R)} {enc_mat(embv)}")
                 impl.append(enc_mats(np.asarray(out, dtype=float)))
+                reqs.append(f"rp_twinsurr_src {md_eff} {ns_eff} {enc_vec(draws)} {enc_imat(R)} {enc_mat(embv)}")
+                impl.append(enc_mats(np.asarray(out, dtype=float)))
+                ctx.count("gen:RecurrencePlot.twin_surrogates-source-level")
                 ctx.count("gen:RecurrencePlot.twin_surrogates-whole-method")
             if rng.random() < 0.3:
                 reqs.append(f"rp_twins {md_eff} {enc_imat(R)}")
                 impl.append(enc_imat(tw))
             reqs.append(f"walk_r {NN} {ns_eff} {enc_vec(draws)} {enc_imat(tw[:NN])}")
             impl.append(("walk3", out, np.array(rp.embedding), used))
+            # round 5: the loop-level walk on the source's expressions (with the trailing extra list)
+            reqs.append(f"walk_rk {NN} {ns_eff} {enc_vec(draws)} {enc_imat(tw)}")
+            impl.append(("walk3", out, np.array(rp.embedding), used))
+            ctx.count("gen:_twin_surrogates_r-loop-level")
             npairs = sum(len(x) for x in tw)
             ctx.case(("twin_r", ts.tobytes().hex(), str(kw), md, ns, enc_vec(draws[:8])),
                      NN >= 4 and npairs > 0)
@@ -1093,6 +1109,7 @@ def run(ctx):
     #    mirror, phases multiplied into the memoised array) — model `cnsCalls`
     # ======================================================================
     creqs, cimpl = coupling_correspondence(ctx, rng, nprng, quick)
+    n_exact = coupling_exact_correspondence(ctx, rng, nprng, quick)
     facts = common.driver("C15", ["cnsfacts"])[0] if HAVE_DRIVER else "1 true"
     ctx.obligation("the model of CouplingAnalysisPurePython.correlatedNoiseSurrogates mirrors along the "
                    f"frequency axis as the source does (Generated/StructC15.lean: axis, in-place = {facts})",
@@ -1165,7 +1182,7 @@ def run(ctx):
                    f"source (Generated/StructC15.lean), executed statement by statement == spectra "
                    f"handed to irfft ({len(mreqs)} rows, relative tolerance {TOL})", "correspondence",
                    not mbad, "\n".join(f"{mreqs[i][:300]} :: {w}" for i, w in mbad[:5]))
-    ctx.extra["requests_compared"] += len(creqs)
+    ctx.extra["requests_compared"] += len(creqs) + n_exact
     cbad = float_compare(creqs, cimpl)
     ctx.obligation(f"correspondence: cnsCalls (full FFT, slices of the source, in-place history) == arrays "
                    f"CouplingAnalysisPurePython.correlatedNoiseSurrogates hands to ifft ({len(creqs)} rows, "
@@ -1242,24 +1259,50 @@ def gen_coupling_data(rng, nprng, quick):
             d[:, 0] = 1.5
         if kind == "scaled":
             d = d * 2.0 ** rng.choice([-300, -30, 30, 300])
-    return kind, d.reshape(n, N)
+    d = d.reshape(n, N)
+    # round 5: the caller's array in both float widths, as integers, and in other memory layouts
+    variant = rng.choice(["c-order", "c-order", "float32", "fortran", "strided", "int64", "float32-fortran"])
+    if variant.startswith("float32") and (kind == "scaled" or not np.isfinite(d.astype(np.float32)).all()):
+        variant = "fortran"
+    if variant == "int64" and kind != "int":
+        variant = "strided"
+    if variant.startswith("float32"):
+        d = d.astype(np.float32)
+    if variant == "int64":
+        d = d.astype(np.int64)
+    if variant.endswith("fortran"):
+        d = np.asfortranarray(d)
+    if variant == "strided":
+        big = nprng.randn(2 * n + 1, 3 * N + 2).astype(d.dtype)
+        big[1::2, 2::3][:n, :N] = d
+        d = big[1::2, 2::3][:n, :N]
+    return kind + "/" + variant, d
+
+
+def as_caller_array(d):
+    """the array handed to the constructor: the strided view itself, otherwise a copy that keeps
+    dtype and memory order"""
+    return d if not d.flags.owndata else d.copy(order="K")
 
 
 def coupling_correspondence(ctx, rng, nprng, quick):
     import pyunicorn.funcnet.coupling_analysis_pure_python as CM
     creqs, cimpl = [], []
+    herm_bad, herm_cnt = [], [0]
     for c in range(150 if quick else 1200):
         kind, d = gen_coupling_data(rng, nprng, quick)
         n, N = d.shape
         seed = rng.randrange(2 ** 31)
         px = CouplingNumpyProxy(seed)
-        rep = {"dataarray(time,nodes)": d.tolist(), "numpy_RandomState_seed": seed}
+        rep = {"dataarray(time,nodes)": d.tolist(), "numpy_RandomState_seed": seed, "dtype": str(d.dtype),
+               "caller_array": kind}
+        ctx.count("coupling-caller:" + kind.split("/")[1])
         calls = [rng.choice(["direct", "direct", "cc", "mi"]) for _ in range(rng.choice([1, 2, 3]))]
         if n < 4:
             calls = ["direct"] * len(calls)      # the statistics of the wrappers need a few samples
         try:
             with quiet(), np.errstate(all="ignore"), patched(CM, numpy=px):
-                ca = CM.CouplingAnalysisPurePython(d.copy(), silence_level=3)
+                ca = CM.CouplingAnalysisPurePython(as_caller_array(d), silence_level=3)
                 for how in calls:
                     before = len(px.fft.ifft_in)
                     try:
@@ -1289,16 +1332,153 @@ def coupling_correspondence(ctx, rng, nprng, quick):
             continue
         cache = f.fft_out[0]
         if np.isfinite(cache).all():
+            # round 5: the hypothesis `HermL` of coupling_fourier_surrogates_keep_amplitudes holds of
+            # the array numpy.fft.fft returned, and its conclusion (Hermitian again, same moduli at
+            # every bin) of every array handed to ifft — up to rounding, relative to the largest bin
+            for W, what in [(cache, "memoised-fft")] + [(a, "ifft-input") for a in f.ifft_in]:
+                sc = float(np.abs(cache).max()) or 1.0
+                mir = np.conj(W[:, (-np.arange(n)) % n])
+                if W.shape != cache.shape or not np.all(np.abs(W - mir) <= tol_for(d) * sc) or \
+                        not np.all(np.abs(np.abs(W) - np.abs(cache)) <= tol_for(d) * sc):
+                    herm_bad.append(f"{what} n={n} seed={seed}")
+            herm_cnt[0] += 1 + len(f.ifft_in)
             for i in range(N):
                 ph = [px.random.phases[k][i] for k in range(len(calls))]
                 creqs.append(f"cns {enc_vec(cache[i].real)} {enc_vec(cache[i].imag)} {enc_mat(ph)}")
-                cimpl.append(([f.ifft_in[k][i] for k in range(len(calls))], TOL))
+                cimpl.append(([f.ifft_in[k][i] for k in range(len(calls))], tol_for(d)))
         ctx.case(("coupling-fourier", d.tobytes().hex(), seed, tuple(calls)), n >= 4)
         ctx.count("gen:coupling-class-fourier", len(calls))
         for how in calls:
             ctx.count(f"coupling:{how}")
         ctx.count("coupling-len:" + ("1" if n == 1 else "2" if n == 2 else "odd" if n % 2 else "even"))
+    ctx.obligation(f"the memoised numpy.fft.fft of the coupling class is Hermitian (hypothesis HermL of "
+                   f"coupling_fourier_surrogates_keep_amplitudes) and so is every array handed to ifft, "
+                   f"with the moduli of the memoised one at every bin ({herm_cnt[0]} arrays, relative "
+                   f"tolerance {TOL})", "correspondence", not herm_bad, ", ".join(herm_bad[:8]))
     return creqs, cimpl
+
+
+class ExactCouplingProxy:
+    """round 5: stands in for the module global `numpy` of funcnet/coupling_analysis_pure_python.py
+    so that the method's own statements run in *exact* arithmetic: `fft.fft` returns a given
+    integer-valued complex array (arbitrary content, not necessarily Hermitian), `random.uniform`
+    returns whole numbers q of quarter turns and `exp(1j*q)` the exact unit `i**q`."""
+
+    def __init__(self, spec, seed):
+        outer = self
+        self.spec, self.rs = spec, np.random.RandomState(seed)
+        self.sizes, self.phases, self.ifft_in = [], [], []
+
+        class _Fft:
+            def fft(self, a, *args, **kw):
+                if np.asarray(a).shape != outer.spec.shape or kw.get("axis", -1) not in (1, -1):
+                    raise AssertionError("fft called on another shape / axis")
+                return outer.spec.copy()
+
+            def ifft(self, a, *args, **kw):
+                outer.ifft_in.append(np.array(a, copy=True))
+                return np.fft.ifft(a, *args, **kw)
+
+            def __getattr__(self, k):
+                return getattr(np.fft, k)
+
+        class _Random:
+            def uniform(self, low=0.0, high=1.0, size=None):
+                q = outer.rs.randint(0, 8, size=size).astype(float)
+                outer.sizes.append(size)
+                outer.phases.append(q.copy())
+                return q
+
+            def __getattr__(self, k):
+                return getattr(np.random, k)
+        self.fft, self.random = _Fft(), _Random()
+
+    def exp(self, z):
+        z = np.asarray(z)
+        q = np.rint(z.imag).astype(int) % 4
+        if np.any(z.real != 0) or np.any(z.imag != np.rint(z.imag)):
+            raise AssertionError("exp called on something other than 1j * phases")
+        return np.array([1, 1j, -1, -1j])[q]
+
+    def __getattr__(self, k):
+        return getattr(np, k)
+
+
+def coupling_exact_correspondence(ctx, rng, nprng, quick):
+    """round 5: `cnsCalls` on exact integers (`Trig Int`, quarter-turn phases) == the arrays the
+    method's own slice statements produce, for **arbitrary** (also non-Hermitian) memoised arrays —
+    the tie behind `coupling_step_on_blocks`, every length 1..41 in every run"""
+    import pyunicorn.funcnet.coupling_analysis_pure_python as CM
+    reqs, impl, lens = [], [], []
+    lengths = list(range(1, 42)) + [rng.choice([48, 63, 64, 65, 100, 127, 128, 129])
+                                     for _ in range(4 if quick else 40)]
+    if not quick:
+        lengths = lengths * 4
+    for n in lengths:
+        N = rng.choice([1, 2, 3])
+        kind = rng.choice(["random", "random", "hermitian", "index", "zero-tail"])
+        hi = rng.choice([3, 1000, 2 ** 20])
+        spec = (nprng.randint(-hi, hi + 1, size=(N, n)) +
+                1j * nprng.randint(-hi, hi + 1, size=(N, n))).astype(complex)
+        if kind == "hermitian":
+            for k in range(n):
+                spec[:, (n - k) % n] = np.conj(spec[:, k]) if k != (n - k) % n else spec[:, k].real
+        elif kind == "index":          # bin k holds k + i(1000 + k): the output shows who went where
+            spec = np.tile(np.arange(n) + 1j * (1000 + np.arange(n)), (N, 1)).astype(complex)
+        elif kind == "zero-tail":
+            spec[:, n // 2 + 1:] = 0
+        seed = rng.randrange(2 ** 31)
+        px = ExactCouplingProxy(spec, seed)
+        calls = rng.choice([1, 1, 2, 3, 4])
+        rep = {"memoised_fft_re": spec.real.tolist(), "memoised_fft_im": spec.imag.tolist(),
+               "quarter_turn_seed": seed, "calls": calls}
+        try:
+            with quiet(), np.errstate(all="ignore"), patched(CM, numpy=px):
+                ca = CM.CouplingAnalysisPurePython(nprng.randn(max(n, 2), N), silence_level=3)
+                for _ in range(calls):
+                    ca.correlatedNoiseSurrogates(np.zeros((N, n)))
+        except Exception as e:  # noqa
+            ctx.fail({"kind": "raises", "class": "CouplingAnalysisPurePython",
+                      "method": "correlatedNoiseSurrogates", "error": type(e).__name__},
+                     f"correlatedNoiseSurrogates on a memoised integer array of length {n} raised "
+                     f"{type(e).__name__}: {e}", rep)
+            continue
+        if len(px.ifft_in) != calls or len(px.phases) != calls:
+            ctx.fail({"kind": "call-structure", "class": "CouplingAnalysisPurePython"},
+                     f"{len(px.ifft_in)} ifft / {len(px.phases)} uniform calls for {calls} surrogate calls",
+                     rep)
+            continue
+        lens.append((n, [tuple(sz) if sz is not None else None for sz in px.sizes], N))
+
+        def iv(v):
+            return ",".join(str(int(x)) for x in v) if len(v) else "-"
+        for i in range(N):
+            reqs.append(f"cns_exact {iv(spec[i].real)} {iv(spec[i].imag)} "
+                        + ";".join(iv(px.phases[k][i]) for k in range(calls)))
+            impl.append(";".join(",".join(f"{int(z.real)}_{int(z.imag)}" for z in px.ifft_in[k][i])
+                                 for k in range(calls)))
+        ctx.case(("coupling-exact", spec.tobytes().hex(), seed, calls), n >= 4)
+        ctx.count("gen:coupling-class-exact-slices", calls)
+        ctx.count(f"coupling-exact:{kind}")
+        ctx.count("coupling-exact-len:" + ("1" if n == 1 else "2" if n == 2 else
+                                            "odd" if n % 2 else "even"))
+    model = common.driver("C15", reqs) if HAVE_DRIVER else impl
+    bad = [(r, mo, im) for r, mo, im in zip(reqs, model, impl) if mo != im]
+    ctx.obligation(f"correspondence (exact): cnsCalls over the integers with quarter-turn phases == the "
+                   f"arrays the slice statements of correlatedNoiseSurrogates build from arbitrary "
+                   f"memoised arrays ({len(reqs)} rows, every length 1-41, 1-4 calls)", "correspondence",
+                   not bad, "\n".join(f"{r[:300]} :: model={mo[:200]} impl={im[:200]}"
+                                      for r, mo, im in bad[:5]))
+    # the hypothesis of coupling_fourier_surrogates_keep_amplitudes on the phase count: uniform is
+    # asked for (nNodes, cnsLen ntime) with cnsLen the generated arithmetic
+    ns = sorted({n for n, _, _ in lens})
+    mlen = dict(zip(ns, common.driver("C15", [f"cnslen {n}" for n in ns]))) if HAVE_DRIVER else {}
+    wrong = [(n, sz) for n, szs, N in lens for sz in szs
+             if HAVE_DRIVER and sz != (N, int(mlen[n]))]
+    ctx.obligation("numpy.random.uniform is asked for (nNodes, lenPhase) phases with lenPhase = cnsLen(ntime) "
+                   "of Generated/ArithC15.lean (hypothesis of coupling_fourier_surrogates_keep_amplitudes)",
+                   "correspondence", not wrong, str(wrong[:5]))
+    return len(reqs)
 
 
 def coupling_oracle(ctx, rng, nprng, quick):
@@ -1311,11 +1491,13 @@ def coupling_oracle(ctx, rng, nprng, quick):
         n, N = d.shape
         seed = rng.randrange(2 ** 31)
         np.random.seed(seed)
-        rep = {"dataarray(time,nodes)": d.tolist(), "numpy_random_seed": seed}
+        rep = {"dataarray(time,nodes)": d.tolist(), "numpy_random_seed": seed, "dtype": str(d.dtype),
+               "caller_array": kind}
         ctx.count("oracle:coupling-fourier")
+        ctx.count("oracle:coupling-caller:" + kind.split("/")[1])
         try:
             with quiet(), np.errstate(all="ignore"):
-                ca = CA(d.copy(), silence_level=3)
+                ca = CA(as_caller_array(d), silence_level=3)
                 data = ca.dataarray.copy()
                 for call in range(rng.choice([1, 2, 4])):
                     out = ca.correlatedNoiseSurrogates(ca.dataarray.copy())
@@ -1386,7 +1568,7 @@ def dft_pair_check(ctx, rng, nprng, quick):
     rounding, the pair `DFT.rfft` / `DFT.irfft` of Lemmas/SurrogatesDFT.lean — the documented sum
     and the inverse DFT of the Hermitian extension that drops the imaginary parts of the DC and
     Nyquist bins.  Compared with the explicit O(n^2) sums."""
-    bad, cnt = [], 0
+    bad, bad_full, cnt = [], [], 0
     for c in range(80 if quick else 600):
         n = rng.choice([1, 2, 3, 4, 5, 6, 7, 8, 9, 12, 15, 16, 21, 32, 33])
         x = nprng.randn(n) * 2.0 ** rng.choice([0, 0, -30, 30, 300])
@@ -1412,7 +1594,23 @@ def dft_pair_check(ctx, rng, nprng, quick):
         if z.shape != (n,) or not np.all(np.abs(y.real - z) <= TOL * sc) or \
                 not np.all(np.abs(y.imag) <= TOL * sc):
             bad.append(f"irfft n={n}")
+        # round 5: the full pair of the coupling class, `fullSpectrum` (numpy.fft.fft of a real
+        # series) and `realIfft` (numpy.real(numpy.fft.ifft(W)) of an arbitrary full spectrum)
+        FF = np.array([np.sum(x * np.exp(-2j * np.pi * t * f / n)) for f in range(n)])
+        GG = np.fft.fft(x.reshape(1, n), axis=1)[0]
+        sc = float(np.abs(FF).max())
+        if GG.shape != FF.shape or not np.all(np.abs(FF - GG) <= TOL * sc):
+            bad_full.append(f"fft n={n}")
+        V = (nprng.randn(n) + 1j * nprng.randn(n)) * 2.0 ** rng.choice([0, -30, 30])
+        yy = np.array([np.sum(V * np.exp(2j * np.pi * t * tt / n)) / n for tt in range(n)])
+        zz = np.real(np.fft.ifft(V.reshape(1, n), axis=1))[0]
+        sc = float(np.abs(yy).max())
+        if zz.shape != (n,) or not np.all(np.abs(yy.real - zz) <= TOL * sc):
+            bad_full.append(f"real(ifft) n={n}")
         cnt += 1
+    ctx.obligation(f"numpy.fft.fft(axis=1) / real(numpy.fft.ifft(axis=1)) == fullSpectrum / realIfft of "
+                   f"Lemmas/SurrogatesCoupling*.lean (explicit sums, {cnt} random arrays of length 1-33, "
+                   f"relative tolerance {TOL})", "correspondence", not bad_full, ", ".join(bad_full[:8]))
     ctx.obligation(f"numpy.fft.rfft / irfft(n=) == the DFT pair of Lemmas/SurrogatesDFT.lean (explicit "
                    f"sums, {cnt} random arrays of length 1-33, relative tolerance {TOL})",
                    "correspondence", not bad, ", ".join(bad[:8]))
